@@ -73,8 +73,25 @@ fn reference(c: &Case) -> Expect {
     let cl_bad = vals.iter().any(|v| v.is_none()) || vals.windows(2).any(|w| w[0] != w[1]);
     let no_body = c.method == "HEAD" || (100..200).contains(&c.status) || c.status == 204 || c.status == 304;
     let chunked = c.te.as_deref().filter(|t| !t.starts_with("CE=")).map_or(false, |t| {
-        // empty list elements are ignored (RFC 9110 5.6.1.2): the last coding is the last non-empty element
-        t.split(|c| c == ',' || c == '|').map(|l| l.trim()).filter(|l| !l.is_empty()).last().map_or(false, |l| l.eq_ignore_ascii_case("chunked"))
+        // empty list elements are ignored (RFC 9110 5.6.1.2): the last coding is the last non-empty element;
+        // a comma inside a quoted parameter value does not separate list elements
+        let mut items: Vec<String> = vec![String::new()];
+        let mut quoted = false;
+        for ch in t.chars() {
+            match ch {
+                '"' => {
+                    quoted = !quoted;
+                    items.last_mut().unwrap().push(ch);
+                }
+                '|' => {
+                    quoted = false;
+                    items.push(String::new());
+                }
+                ',' if !quoted => items.push(String::new()),
+                _ => items.last_mut().unwrap().push(ch),
+            }
+        }
+        items.iter().map(|l| l.trim()).filter(|l| !l.is_empty()).last().map_or(false, |l| l.eq_ignore_ascii_case("chunked"))
     });
     if no_body {
         return if cl_bad {
@@ -324,6 +341,10 @@ pub fn c03(ctx: &Ctx) -> Report {
         Some("unchunked"),
         Some("identity, X-Chunked"),
         Some("chunked-v2"),
+        // the word inside a quoted parameter value of another coding (with commas around it)
+        Some("x-foo;note=\"a, chunked, b\""),
+        Some("x-foo;note=\"a, chunked\""),
+        Some("x-foo;note=\"a,b\", chunked"),
         // empty list elements behind (and in front of) the coding
         Some("chunked,"),
         Some("chunked , ,"),
